@@ -897,7 +897,6 @@ func Eval(t *Term, env map[string]*big.Int, uf func(name string, args []*big.Int
 	return r
 }
 
-
 // Subst rebuilds t with variables replaced by constants (env: name -> value), re-simplifying.
 func Subst(t *Term, env map[string]*big.Int, memo map[int]*Term) *Term {
 	if t.Op == "const" {
